@@ -202,8 +202,12 @@ def build_inputs(case):
             for _ in range(n):
                 cvrs[str(k)] = {CONTEST: dict(b)}
                 k += 1
-    contest = Contest(CONTEST, [f(c) for c in case["cands"]], f(case["winner"]), case["tot"],
-                      order=[f(c) for c in case["outcome"]])
+    if case.get("call") == "defaults" and not case["outcome"]:
+        # no elimination order known: the `order` argument is left out (its default is the empty list)
+        contest = Contest(CONTEST, [f(c) for c in case["cands"]], f(case["winner"]), case["tot"])
+    else:
+        contest = Contest(CONTEST, [f(c) for c in case["cands"]], f(case["winner"]), case["tot"],
+                          order=[f(c) for c in case["outcome"]])
     return contest, cvrs
 
 
@@ -665,6 +669,24 @@ def gen_near_tie(rng, nc=3):
 
 
 def gen(rng, n, tier):
+    import hashlib
+    from ..core import Rng
+    opt = Rng(int(hashlib.sha1(("options" + repr(rng.getstate())).encode()).hexdigest()[:15], 16))
+    main = list(gen_main(rng, n, tier))
+    # call form the main stream never uses (OPTIONS_AUDIT.md): raire_utils.Contest(name, candidates, winner, total)
+    # WITHOUT the `order` argument (no hint; the search then dives along the candidate list)
+    more = []
+    for _ in range(max(6, n // 20)):
+        c = gen_random(opt)
+        c["outcome"] = []
+        c["call"] = "defaults"
+        more.append(c)
+    precompute(more)
+    yield from main
+    yield from more
+
+
+def gen_main(rng, n, tier):
     cases = []
     ex = list(gen_exhaustive(rng, tier))
     cases += ex
